@@ -78,6 +78,47 @@ claim('C15',
       "Rocq proof over generated real-number model (translator: symbolic tracing) against a hand-written series spec",
       "DESIGN.md 4/C15")
 
+claim('C07',
+      "Theorems (MathComp, any realFieldType, any dimensions, closed under the global context) about kalman.correct as "
+      "GENERATED from /repo by the matrix-granularity tracer tools/gen_mx.py (Gen/Kalman.v): outputs = conditional mean "
+      "and covariance (Schur complement) of the linear-Gaussian model (Spec/Gaussian.v); posterior symmetric, PSD, <= "
+      "prior; Joseph form PSD for any gain; information form; innovation = L^-1 e with L lower, L L^T = S, "
+      "nu^T nu = e^T S^-1 e; two independent blocks processed in either order = joint update (P may be singular). The "
+      "Cholesky routine enters as a hypothesis (cholesky_factor). 'Inputs not modified' is enforced by the tracer "
+      "(rejects overwrites of inputs) and checked by byte snapshots, not a Coq statement. Numerical support on the "
+      "implementation with an exact-rational oracle.",
+      COMMON_NOTE + "Matrix tracer gen_mx.py trusted for recording the operations; validated each run by an independent "
+      "numpy interpreter of the IR against the real function (60 inputs, C and F order).",
+      "Rocq/MathComp proof over generated matrix-level model (translator: symbolic matrix tracing)",
+      "DESIGN.md 4/C07")
+
+claim('C08',
+      "Theorems (MathComp, any numFieldType, any dimension, closed under the global context) about "
+      "kalman.compute_process_matrices as GENERATED from /repo (Van Loan block matrix, expm as an oracle whose spec is "
+      "the formal power series of Spec/ExpSeries.v): block structure of powers, Phi = the same series in F alone, "
+      "coefficients of Qd = term-by-term integral of e^{Fs} Q e^{F^T s} (every coefficient below the truncation order), "
+      "symmetry, zero step, composition law and partition independence under the semigroup law, which the formal "
+      "series is proved to obey. Partial: PSD of Qd is proved only for the zero-dynamics instance; the identification "
+      "of scipy's expm with the limit of the series (rounding, convergence) is not proved - checked numerically "
+      "against an exact-rational Taylor/doubling oracle.",
+      COMMON_NOTE + "Matrix tracer gen_mx.py validated each run against the real function.",
+      "Rocq/MathComp proof over generated matrix-level model; formal power series spec of expm",
+      "DESIGN.md 4/C08")
+
+claim('C19',
+      "A purity checker for an aliasing IR is proved sound in Coq (checker_sound: accepted functions never write a "
+      "cell of the caller's region, never use the global RNG except where documented, write/read only white-listed "
+      "state slots, in every flow-insensitive execution of the abstract heap semantics), and the IR of all 94 functions "
+      "(74 public) of the ten modules, regenerated from /repo on every run by the Python-ast translator "
+      "tools/alias2ir.py, is accepted by vm_compute (all_public_pure, all_summaries_ok, seed_plumbed, "
+      "schema_constants). Partial: the abstraction Python+numpy -> IR (classification tables, 294 micro-tests per "
+      "run) is trusted; bit-identical repeat calls, equality across argument forms and schema of returned values are "
+      "validated dynamically only (909 callable x form cases per quick run).",
+      COMMON_NOTE + "Translator alias2ir.py and its numpy/pandas/scipy classification tables are trusted, micro-tested "
+      "on the installed library versions each run; points-to hints are untrusted and re-validated in Coq.",
+      "Rocq proof of a verified checker + vm_compute over the regenerated IR of the whole public API; dynamic validation",
+      "DESIGN.md 4/C19")
+
 REASON_TODO = "check not built yet (framework under construction; see DESIGN.md section 4 for the planned proof)"
 
 
